@@ -282,7 +282,7 @@ func ruleR23_5(c *Check) {
 		op, g := w.guardRel(w.Guards(w.fnOf(s), s), isKid, isNK, false)
 		r.Check(g != nil && (op == token.GTR || op == token.GEQ), rd, k.key("nextKeyID is the running maximum of the ids read", w, s), s, "nextKeyID is overwritten with the id of the key just read without `id > nextKeyID`: after a registry rewrite (map order) it can end below an existing id, and the next rotation reuses that id")
 	}
-	r.Exists(n == 1, rd, "nextKeyID maintained while reading", nil, "readKeyRegistry does not raise nextKeyID from the ids it reads")
+	r.Exists(n >= 1, rd, "nextKeyID maintained while reading", nil, "readKeyRegistry does not raise nextKeyID from the ids it reads")
 	// stores into dataKeys are keyed by the stored key's id
 	for _, o := range allSites(w, "badger", selStore(dks)) {
 		as, ok := o.Node.(*ast.AssignStmt)
@@ -616,7 +616,7 @@ func ruleR31_2(c *Check) {
 	cp := w.F("badger.MergeOperator.compact")
 	mu := w.Field("badger.MergeOperator.RWMutex")
 	im := cp.Sites(selCallName(w, "badger.MergeOperator.iterateAndMerge"))
-	r.Exists(len(im) == 1, cp, "fold computed", nil, "compact no longer calls iterateAndMerge")
+	r.Exists(len(im) >= 1, cp, "fold computed", nil, "compact no longer calls iterateAndMerge")
 	var version types.Object
 	for _, s := range im {
 		if as, ok := w.parentOf(s).(*ast.AssignStmt); ok && len(as.Lhs) == 3 {
@@ -841,7 +841,7 @@ func ruleR32_4(c *Check) {
 		}
 		r.Check(w.errIsFatal(ns, s.(*ast.CallExpr)), ns, "a match that cannot be registered fails the subscription", s, "the error of AddMatch is ignored")
 	}
-	r.Exists(len(ns.Sites(selCall(add))) == 1, ns, "matches registered", nil, "newSubscriber does not call AddMatch")
+	r.Exists(len(ns.Sites(selCall(add))) >= 1, ns, "matches registered", nil, "newSubscriber does not call AddMatch")
 	for _, name := range []string{"badger.publisher.deleteSubscriber", "badger.publisher.cleanSubscribers"} {
 		f := w.F(name)
 		okDel := false
